@@ -315,6 +315,34 @@ func preflightErrorClassRule(c *Ctx) {
 					}
 				}
 			}
+			// a verdict taken from an API status must name the reasons it accepts: "everything that is
+			// not on a retry list" also covers InternalError, Gone, Expired and whatever a later API
+			// server adds
+			asStatus, definite := false, false
+			for _, f := range errFacts {
+				if call, _ := asCall(f.Cond); call != nil {
+					switch id := calleeID(call.Common()); {
+					case id == "errors.As":
+						if errorsAsTarget(call.Common().Args[1]) == pkgAPIErr+".APIStatus" {
+							asStatus = true
+						}
+					case id == pkgMeta+".IsNoMatchError", id == "strings.Contains":
+						definite = true
+					case strings.HasPrefix(id, pkgAPIErr+".Is"):
+						definite = true
+					}
+				}
+				if b, ok := f.Cond.(*ssa.BinOp); ok && b.Op == token.EQL && f.Pol {
+					for _, side := range []ssa.Value{b.X, b.Y} {
+						if _, isC := constString(side); isC {
+							definite = true
+						}
+					}
+				}
+			}
+			if asStatus && !definite {
+				bad = append(bad, "every status reason that is not explicitly excluded (no positive test of the reason on this path)")
+			}
 			if len(bad) == 0 {
 				o.OK()
 			} else {
